@@ -67,8 +67,8 @@ CFG = {
                  "C12_default_name_no_string_name", "C12_default_name_idempotent", "C12_default_name_tree_renders",
                  "C12_get_results_clean", "C12_routeW_is_map", "C12_routeW_notfound_touches_nothing", "C12_routeW_forwards_once",
                  "C12_routeW_no_nil_deref", "C12_judge_sound_routew", "C12_judge_ok_means_guard"],
-    "level_text": "Theorems (Props/C12.v, closed under the global context): for all operation sequences the registry of pkg/router refines a plain functional map and its change log replays to the registry with each entry's Old the value replaced; for every schedule of any number of concurrent first Gets of one name (induction over schedules with an invariant) at most one factory client is committed, exactly one Auto change is logged and every returned client is that one, and all threads finish after three turns each; a Get that finds nothing changes nothing (also concurrently); for every child script the generated stream pump hands the caller exactly the child's header, messages, trailer and status, and a failing caller Send yields the delivered prefix, the caller's error and a cancelled child; the default-name interceptor changes only empty string name fields, also over message trees (nested messages with their own name fields are never touched). With the onChange callbacks as steps of their own (they run after the lock is released): for every schedule of any Get/Add/Remove threads the callbacks delivered plus the changes still to be reported are a permutation of the transition log, erasing callback steps gives a run of the block-level LTS, with Gets alone callbacks equal transitions in order; the property fixes which transitions are reported, not the arrival order of callbacks of concurrent committers (three recorded witnesses C12_callback_order_not_guaranteed_*, observations only). With per-call fallback/factory outcomes (nil,nil / nil,err / client+err / client,nil) and any subset of the three options the registry still refines a plain map, and the numbers of fallback/factory calls are as specified. The whole lookup chain is modelled value by value (RouteW.v: router.Get over its named results child/exists/err with invoke handing the Factory's value back even on a miss, the generated GetXxxClient, the head of every generated method): Get's two results are exactly (client, nil) or (nil, NotFound) whatever is left in the variables (C12_get_results_clean); every history on a generated router (typed Add refusing nil, Remove, Has, Router.Get, GetXxxClient, unary and streaming methods, any option subset, per-call outcomes) equals the plain map's in both results of every Get, who was called, transcripts, call counts, contents and log (C12_routeW_is_map); a name for which registry, fallback and factory yield no client (a client returned next to an error is none) gives (nil, NotFound) from both getters and NotFound with nobody called from every method, the router unchanged (C12_routeW_notfound_touches_nothing); no method ever calls a nil client. The judge is proved: agreement with the model implies the property predicate for every case kind except the two schedule kinds (boolean equalities reflect equality; sequence/session cases under the guard that a type has at most one field called name, and a case outside the guard is reported, never skipped). all_routed is re-proved by vm_compute on every run over Gen/Routers.v, regenerated from the compiled service descriptors and go/ast over all checked-in *_router.pb.go/*_wrap.pb.go. The models are tied to the code by a differential run of every method of all 65 generated routers against fake per-name clients (who was called, with which request bytes; messages, status, header, trailer received), ~200 bare-registry histories, ~2500 forced interleavings of concurrent Get/Add/Remove through verif yield points in router.Get (all interleavings for 2 and 3 threads), ~1600 schedules in which the harness's onChange parks on entry (all interleavings of 11 two/three-thread configurations), 200 histories over the 8 option subsets with a fresh fallback/factory outcome per Get (call counts observed), 130 histories on the generated routers built from an option subset (through router.WithFactory or the generated WithXxxClientFactory) in which every Router.Get / GetXxxClient / unary / streaming lookup has its own fallback/factory outcome incl. client+error and both results of every Get are observed, names drawn from classes (empty, blank ASCII, unicode white space, padded, case variants, odd) and passed to Coq byte-exactly, interceptor calls with varied FullMethod / stream kinds / explicit-presence and JSON-name-crossed name fields / sub-messages with their own names, the typed accessors AddXxxClient/RemoveXxxClient/GetXxxClient and HoldsType of every router, the interceptors on the request types of all services, and a byte-for-byte regeneration of all routers and wrappers with the in-tree generators.",
-    "level_note": "Trusted: Coq kernel + vm_compute; the hand models of router.go, the generated method bodies (one unary and one stream body; the translator checks by go/ast that every router method has the same normalised body and the required calls) and replaceEmptyNameField, validated only on generated inputs; fake grpc.ClientConnInterface/ServerStream stand in for transports (a ClientStream whose Header() fails is modelled but neither transport in the tree produces it; then the trailer is not forwarded); unary header/trailer metadata and caller request metadata are not forwarded by the routers and are outside the property; the child is not cancelled by the pump when the caller's SendHeader fails (left to the transport ending the server context); the concurrent theorems model the factory as succeeding or failing per name (the sequential RegistryW model is per call); with nil clients stored through the untyped Add the log is ambiguous (refuted theorem included); lock-protected blocks are taken as atomic; yield points at the two gaps of Get and at the entry of the harness's onChange callback.",
+    "level_text": "Theorems (Props/C12.v, closed under the global context): for all operation sequences the registry of pkg/router refines a plain functional map and its change log replays to the registry with each entry's Old the value replaced; for every schedule of any number of concurrent first Gets of one name (induction over schedules with an invariant) at most one factory client is committed, exactly one Auto change is logged and every returned client is that one, and all threads finish after three turns each; a Get that finds nothing changes nothing (also concurrently); for every child script the generated stream pump hands the caller exactly the child's header, messages, trailer and status, and a failing caller Send yields the delivered prefix, the caller's error and a cancelled child; the default-name interceptor changes only empty string name fields, also over message trees (nested messages with their own name fields are never touched). With the onChange callbacks as steps of their own (they run after the lock is released): for every schedule of any Get/Add/Remove threads the callbacks delivered plus the changes still to be reported are a permutation of the transition log, erasing callback steps gives a run of the block-level LTS, with Gets alone callbacks equal transitions in order; the property fixes which transitions are reported, not the arrival order of callbacks of concurrent committers (three recorded witnesses C12_callback_order_not_guaranteed_*, observations only). With per-call fallback/factory outcomes (nil,nil / nil,err / client+err / client,nil) and any subset of the three options the registry still refines a plain map, and the numbers of fallback/factory calls are as specified. The whole lookup chain is modelled value by value (RouteW.v: router.Get over its named results child/exists/err with invoke handing the Factory's value back even on a miss, the generated GetXxxClient, the head of every generated method): Get's two results are exactly (client, nil) or (nil, NotFound) whatever is left in the variables (C12_get_results_clean); every history on a generated router (typed Add refusing nil, Remove, Has, Router.Get, GetXxxClient, unary and streaming methods, any option subset, per-call outcomes) equals the plain map's in both results of every Get, who was called, transcripts, call counts, contents and log (C12_routeW_is_map); a name for which registry, fallback and factory yield no client (a client returned next to an error is none) gives (nil, NotFound) from both getters and NotFound with nobody called from every method, the router unchanged (C12_routeW_notfound_touches_nothing); no method ever calls a nil client. With per-call outcomes UNDER CONCURRENCY (RouterCbW.v: every Get thread carries what its own fallback call and its own factory call return): for every schedule callbacks are a permutation of the transitions; for concurrent first Gets of one name at most one client is ever committed, it is what some caller's own factory returned after its own fallback missed, exactly one Auto change is reported, and every result is the caller's own fallback client, THE committed client, or NotFound when both of its own calls yielded nothing (C12_percall_single_commit, C12_percall_same_client). The judge is proved sound for EVERY case kind (C12_judge_sound: guard and agreement with the model imply the property predicate; boolean equalities reflect equality, perm_eqb decides multiset equality; for the schedule kinds via the model-run theorems, positivity of factory identities along every run and an invariant tying the callbacks delivered so far to what every finished call returned; guards: sequence/session cases -- a type has at most one field called name; schedule cases -- identities non-nil; a case outside the guard is reported, never skipped). all_routed is re-proved by vm_compute on every run over Gen/Routers.v, regenerated from the compiled service descriptors and go/ast over all checked-in *_router.pb.go/*_wrap.pb.go. The models are tied to the code by a differential run of every method of all 65 generated routers against fake per-name clients (who was called, with which request bytes; messages, status, header, trailer received), ~200 bare-registry histories, ~2500 forced interleavings of concurrent Get/Add/Remove through verif yield points in router.Get (all interleavings for 2 and 3 threads), ~1600 schedules in which the harness's onChange parks on entry (all interleavings of 11 two/three-thread configurations), 975 schedules with per-call fallback/factory outcomes (all interleavings of 12 two-thread configurations incl. client+error vs client, error vs client, two clients, no fallback / no factory configured; 300 random), 200 histories over the 8 option subsets with a fresh fallback/factory outcome per Get (call counts observed), 130 histories on the generated routers built from an option subset (through router.WithFactory or the generated WithXxxClientFactory) in which every Router.Get / GetXxxClient / unary / streaming lookup has its own fallback/factory outcome incl. client+error and both results of every Get are observed, names drawn from classes (empty, blank ASCII, unicode white space, padded, case variants, odd) and passed to Coq byte-exactly, interceptor calls with varied FullMethod / stream kinds / explicit-presence and JSON-name-crossed name fields / sub-messages with their own names, the typed accessors AddXxxClient/RemoveXxxClient/GetXxxClient and HoldsType of every router, the interceptors on the request types of all services, and a byte-for-byte regeneration of all routers and wrappers with the in-tree generators. Model-branch coverage (which arm of every model each case took, Router/C12Branch.v) is computed in Coq over the case files of the run and reported in the evidence (coverage.model_branches, model_branches_unhit).",
+    "level_note": "Trusted: Coq kernel + vm_compute; the hand models of router.go, the generated method bodies (one unary and one stream body; the translator checks by go/ast that every router method has the same normalised body and the required calls) and replaceEmptyNameField, validated only on generated inputs; fake grpc.ClientConnInterface/ServerStream stand in for transports (a ClientStream whose Header() fails is modelled but neither transport in the tree produces it; then the trailer is not forwarded); unary header/trailer metadata and caller request metadata are not forwarded by the routers and are outside the property; the child is not cancelled by the pump when the caller's SendHeader fails (left to the transport ending the server context); the per-name concurrent models (RouterGet.v, RouterCb.v) fix per name whether the factory succeeds, the per-call one (RouterCbW.v) assumes onChange configured; with nil clients stored through the untyped Add the log is ambiguous (refuted theorem included); lock-protected blocks are taken as atomic; yield points at the two gaps of Get and at the entry of the harness's onChange callback.",
     "trusted_base": [
         "harness/c12/translate.go (go/ast fact extraction from *_router.pb.go, *_wrap.pb.go; descriptor walk) and harness/c12/table_gen.go (constructor table, generated by mktable.go, staleness reported as a Direct)",
         "protodesc.ToFileDescriptorProto of the compiled descriptors as input to cmd/protoc-gen-router/-wrapper instead of protoc output (source comments absent; the templates do not use them)",
